@@ -404,103 +404,21 @@ def check_container_marks(P, ctx):
             ok = ok and len(mk) == 1
             ctx.check(ok, rule, fname, s, 'a thread marks its thread-local table (created as a Table by its constructor) with the same collector and callback')
             continue
-        if not cbs or not all(ir.canon(c[2][0]) == ir.canon(gcpar) for n, c in cbs):
-            ctx.refuted(rule, fname, s, 'the Mark instance must hand its elements to the callback with the collector it was given')
-            continue
-        N = util.Norm(P, fn, inline=False)
-        reason = None
-        if T in ('Array', 'Table'):
-            bound = 'nitems' if T == 'Array' else 'nslots'
-            conds = [n for n in g.live() if n['kind'] == 'cond' and field_atom(n['expr'], bound) is not None]
-            if len(conds) != 1:
-                reason = 'no single loop over %s' % bound
-            else:
-                lp = full_range(g, conds[0], bound)
-                if isinstance(lp, str):
-                    reason = lp
-                else:
-                    got = []
-                    for n, c in cbs:
-                        a = ir.top_nocast(c[2][1])
-                        if a[0] == 'call' and ir.callee_name(a) in accs and ir.top_nocast(a[2][1]) == lp['iv']:
-                            got.append(ir.callee_name(a))
-                        if not g.must_pass(n['id'], through_edges=[(conds[0]['id'], True)]):
-                            reason = 'callback outside the loop'
-                    if sorted(got) != sorted(accs):
-                        reason = 'elements handed to the callback per slot: %s; required: %s' % (sorted(got), accs)
-                    if T == 'Table' and reason is None:
-                        occ = [n for n in g.live() if n['kind'] == 'cond' and any(ir.callee_name(c) == 'Table_Key_Hash' for c in ir.calls(n['expr']))]
-                        if len(occ) != 1:
-                            reason = 'no occupied-slot test'
-                        else:
-                            c = ir.canon(occ[0]['expr'])
-                            pol = (c[1] == '!=') if c[0] == 'bin' and c[1] in ('==', '!=') and ('int', 0) in (c[2], c[3]) else None
-                            tgt = [v for v, l in occ[0]['succ'] if l == pol]
-                            if pol is None or not tgt or not all(n['id'] in g.reach_from(tgt[0]) and g.must_pass(lp['cond_node']['id'], [n['id']], start=tgt[0]) for n, c in cbs):
-                                reason = 'an occupied slot does not reach both callbacks'
-        elif T == 'List':
-            conds = [n for n in g.live() if n['kind'] == 'cond']
-            if len(conds) != 1 or ir.canon(conds[0]['expr'])[0] != 'local':
-                reason = 'no `while (item)` walk'
-            else:
-                iv = ir.canon(conds[0]['expr'])
-                init = [n for n in g.live() if n.get('decl') and ('local', n['decl']['name']) == iv and N.canon(n['decl']['init']) == ('arrow', ('param', 0), 'head')]
-                adv = [n for n in g.live() if n['kind'] == 'stmt' and N.canon(n['expr']) == ('assign', '=', iv, ('un', '*', ('call', ('func', 'List_Next'), (('param', 0), iv))))]
-                if not init:
-                    reason = 'walk does not start at head'
-                elif len(adv) != 1:
-                    reason = 'cursor not advanced by List_Next'
-                elif len(cbs) != 1 or ir.canon(cbs[0][1][2][1]) != iv or not g.must_pass(adv[0]['id'], [cbs[0][0]['id']], start=conds[0]['id']):
-                    reason = 'the current node is not handed to the callback on every step'
-                else:
-                    body = [v for v, l in conds[0]['succ'] if l is True][0]
-                    if conds[0]['id'] in g.reach_from(body, cut_nodes=[adv[0]['id']]):
-                        reason = 'a step can be skipped'
-        elif T == 'Tree':
-            init = [n for n in g.live() if n.get('decl') and n['decl']['init'] is not None and any(ir.callee_name(c) == 'Tree_Iter_Init' for c in ir.calls(n['decl']['init']))]
-            adv = [n for n in g.live() if n['kind'] == 'stmt' and any(ir.callee_name(c) == 'Tree_Iter_Next' for c in ir.calls(n['expr']))]
-            conds = [n for n in g.live() if n['kind'] == 'cond']
-            if len(init) != 1 or len(adv) != 1 or len(conds) != 1:
-                reason = 'not an iterator walk from Tree_Iter_Init by Tree_Iter_Next'
-            else:
-                cur = ('local', init[0]['decl']['name'])
-                okc = ir.canon(conds[0]['expr']) == ir.canon(('bin', '!=', cur, ('global', 'Terminal')))
-                a = ir.top_nocast(adv[0]['expr'])
-                okc = okc and a[0] == 'assign' and ir.canon(a[2]) == cur
-                got = []
-                for n, c in cbs:
-                    x = ir.top_nocast(c[2][1])
-                    if x[0] == 'call' and ir.callee_name(x) in accs:
-                        got.append(ir.callee_name(x))
-                    if not (g.must_pass(n['id'], through_edges=[(conds[0]['id'], True)]) and g.must_pass(adv[0]['id'], [n['id']], start=conds[0]['id'])):
-                        okc = False
-                # node recovered from the cursor by the inverse of Tree_Key
-                if sorted(got) != sorted(accs) or not okc:
-                    reason = 'walk must hand Tree_Key and Tree_Val of every visited node to the callback (got %s)' % sorted(got)
-        elif T == 'Tuple':
-            conds = [n for n in g.live() if n['kind'] == 'cond' and util.mentions(n['expr'], lambda y: y == ('global', 'Terminal'))]
-            if len(conds) != 1:
-                reason = 'no walk up to the Terminal sentinel'
-            else:
-                lp = loops.counted_loop(g, None, conds[0])
-                c = ir.canon(conds[0]['expr'])
-                items_i = None
-                if lp is not None:
-                    items_i = ir.canon(('idx', ('arrow', ('param', 'self', 0), 'items'), lp['iv']))
-                    Nt = util.Norm(P, fn)
-                    okc = Nt.canon(conds[0]['expr']) == ir.canon(('bin', '!=', ('idx', ('arrow', ('param', 'self', 0), 'items'), lp['iv']), ('global', 'Terminal')))
-                    ini = lp['inits']
-                    okc = okc and len(ini) == 1 and util.const_int(ini[0][1]['rhs']) == 0 and len(lp['writes']) == 1 and lp['writes'][0][1]['op'] == '++'
-                    okc = okc and len(cbs) == 1 and Nt.canon(cbs[0][1][2][1]) == items_i and loops.step_on_every_iteration(g, lp) and \
-                        g.must_pass(lp['writes'][0][0]['id'], [cbs[0][0]['id']], start=conds[0]['id'])
-                    if not okc:
-                        reason = 'items[0], items[1], ... up to the sentinel must each be handed to the callback'
-                else:
-                    reason = 'no index variable'
-        if reason:
-            ctx.refuted(rule, fname, s, 'the Mark instance of %s must hand every element (for maps: every key and value) to the collector: %s' % (T, reason))
+        # evaluated on small instances of the container (absmodel): the callback receives the collector it was handed and every element
+        # (for maps: every key and every value) exactly once
+        from . import absmodel
+        try:
+            bad, unsup, ncase = absmodel.eval_visits(P, T, fname, 'mark')
+        except absmodel.Unsupported as x:
+            bad, unsup, ncase = None, str(x), 0
+        ctx.stats['paths'] += ncase
+        if unsup and not bad:
+            ctx.undecided(rule, fname, s, 'the Mark instance leaves the evaluated fragment: ' + unsup)
+        elif bad:
+            ctx.refuted(rule, fname, s, 'the Mark instance of %s must hand every element (for maps: every key and value) to the collector: %s' % (T, bad))
         else:
-            ctx.proved(rule, fname, s, 'the traversal covers the full element set and hands every %s to the callback' % ('key and value' if accs and len(accs) == 2 else 'element'))
+            ctx.proved(rule, fname, s, 'the traversal covers the full element set and hands every %s to the callback (%d instances evaluated)' % (
+                'key and value' if accs and len(accs) == 2 else 'element', ncase))
     # every container type that stores Cello objects declares a Mark instance (otherwise it is scanned conservatively,
     # which only sees the container's own struct, not its heap storage)
     for T in ('Array', 'List', 'Table', 'Tree', 'Tuple'):
